@@ -432,7 +432,7 @@ def run(ck):
     if not ck.prepare():
         return ck.finish(rule="build failed")
     rng = ck.rng
-    n = 5000 if ck.thorough else 900
+    n = 5000 if ck.thorough else 750
     cases = [Gen(rng).build(ck.thorough) for _ in range(n)]
     # fixed regression histories: one per repaired defect, always part of the run
     cases = REGRESSIONS + cases
